@@ -125,6 +125,12 @@ def isInvalidType (t : TyId) : Bool := (env.ty (env.derefPtr t)).isInvalid
 
 /-- `util.IterateFields`: fields of the struct under `DerefPtr(t)` -/
 def fieldsOf (t : TyId) : List Field := (env.ty (env.derefPtr t)).fields
+/-- `types.LookupFieldOrMethod(t, true, pkg, name) != nil` -/
+def hasMember (t : TyId) (name : String) : Bool :=
+  match env.lookup t name with
+  | .none => false
+  | _ => true
+
 /-- Go's rule that the field names of one struct are distinct, as a check on the type table
 (assumption of the covering theorem; the driver evaluates it on every input) -/
 def distinctFieldsCheck : Bool :=
